@@ -1,5 +1,6 @@
 """C08 - decided by the reference model (see vcheck/model.py)."""
 from .modelchecks import ModelCheck
+from ..seqenum import enumerate_words
 
 
 class C08(ModelCheck):
@@ -15,3 +16,10 @@ class C08(ModelCheck):
                    "known finding R3 (same mailbox id in two apps) excluded by construction"]
     quick = {'examples': 2400, 'max_ops': 40, 'workers': 8}
     thorough = {'examples': 120000, 'max_ops': 100, 'workers': 16}
+
+    def enumerate(self, tier, seed, stats):
+        """Bounded-exhaustive part: every word over {claim, release, open, add,
+        close, reconnect} x 2 sides on one nameplate up to a length bound."""
+        cfg = {"usage": True, "blur": None, "allow_list": True}
+        return enumerate_words(self, cfg, ['s1', 's2'], 3 if tier == "quick" else 5,
+                               8 if tier == "quick" else 16, stats, "C08")
